@@ -332,17 +332,40 @@ Qed.
 Lemma round_pos_small q s : Z.pos (Pos.size q) <= prec -> round_pos q s = (q, 0).
 Proof. intros H. unfold round_pos. destruct (Z.leb_spec (Z.pos (Pos.size q)) prec); [reflexivity|lia]. Qed.
 
-Lemma comp_limit_lt : comp_limit < 2 ^ 4095.
-Proof. unfold comp_limit. assert (0 < 2 ^ 3582) by (apply Z.pow_pos_nonneg; lia). lia. Qed.
+(* coqchk has no VM: a lia/nia certificate that contains the folded literal 2^4095 (1233 digits) costs minutes there.
+   The three big powers are therefore named; lia/nia see the names as atoms and the few facts needed about them
+   are proved with Z.pow lemmas. *)
+Definition T95 : Z := 2 ^ 4095.
+Definition T94 : Z := 2 ^ 4094.
+Definition T82 : Z := 2 ^ 3582.
+Lemma comp_limit_T : comp_limit = T95 - T82.
+Proof. reflexivity. Qed.
+Lemma T82_pos : 0 < T82.
+Proof. unfold T82. apply Z.pow_pos_nonneg; lia. Qed.
+Lemma T82_ge2 : 2 <= T82.
+Proof. unfold T82. change 2 with (2 ^ 1) at 1. apply Z.pow_le_mono_r; lia. Qed.
+Lemma T95_T94 : T95 = 2 * T94.
+Proof. unfold T95, T94. rewrite <- Z.pow_succ_r by lia. reflexivity. Qed.
+Lemma T95_T82 : 2 * T82 <= T95.
+Proof. unfold T95, T82. rewrite <- Z.pow_succ_r by lia. apply Z.pow_le_mono_r; lia. Qed.
+Lemma pow_le_T94 L : L <= 4094 -> 2 ^ L <= T94.
+Proof. intros H. unfold T94. apply Z.pow_le_mono_r; lia. Qed.
+Lemma comp_limit_ltT : comp_limit < T95.
+Proof. rewrite comp_limit_T. pose proof T82_pos. lia. Qed.
+Lemma size_le_T95 p : Z.pos p < T95 -> Z.pos (Pos.size p) <= 4095.
+Proof. intros H. apply size_le_of_lt; [lia|exact H]. Qed.
 
-Lemma round_pos_bound q : Z.pos q < comp_limit ->
-  0 <= snd (round_pos q false) /\ Z.pos (fst (round_pos q false)) * 2 ^ snd (round_pos q false) < 2 ^ 4095.
+Lemma comp_limit_lt : comp_limit < 2 ^ 4095.
+Proof. exact comp_limit_ltT. Qed.
+
+Lemma round_pos_boundT q : Z.pos q < comp_limit ->
+  0 <= snd (round_pos q false) /\ Z.pos (fst (round_pos q false)) * 2 ^ snd (round_pos q false) < T95.
 Proof.
-  intros Hq. pose proof comp_limit_lt as CL. unfold round_pos.
+  intros Hq. pose proof comp_limit_ltT as CL. unfold round_pos.
   destruct (Z.leb_spec (Z.pos (Pos.size q)) prec) as [Hs|Hs]; cbn [fst snd].
   - rewrite Z.mul_1_r. lia.
   - set (L := Z.pos (Pos.size q)) in *.
-    assert (HL : L <= 4095) by (apply size_le_of_lt; lia).
+    assert (HL : L <= 4095) by (apply size_le_T95; lia).
     destruct (size_bounds q) as [B1 B2]. fold L in B1, B2.
     set (drop := L - prec). assert (Hd : 0 < drop) by (unfold drop; lia).
     set (D := 2 ^ drop). assert (PD : 0 < D) by (apply Z.pow_pos_nonneg; lia).
@@ -368,14 +391,17 @@ Proof.
         - apply Z.gtb_lt in U. lia.
         - apply andb_true_iff in U. destruct U as [U _]. apply Z.eqb_eq in U. lia. }
       destruct (Z.eq_dec L 4095) as [E95|N95].
-      * assert (E1 : 2 ^ 4095 = A * D) by (rewrite <- EL, E95; reflexivity).
-        assert (E2 : 2 ^ 3582 = half) by (unfold half, drop; rewrite E95; reflexivity).
-        unfold comp_limit in Hq. rewrite E1, E2 in Hq. rewrite E1. nia.
-      * assert (2 ^ L <= 2 ^ 4094) by (apply Z.pow_le_mono_r; lia).
-        assert (2 ^ 4095 = 2 * 2 ^ 4094) by (rewrite <- Z.pow_succ_r by lia; reflexivity).
+      * assert (E1 : T95 = A * D) by (rewrite <- EL, E95; reflexivity).
+        assert (E2 : T82 = half) by (unfold half, drop; rewrite E95; reflexivity).
+        rewrite comp_limit_T in Hq. rewrite E1, E2 in Hq. rewrite E1. nia.
+      * pose proof (pow_le_T94 L ltac:(lia)). pose proof T95_T94.
         nia.
     + rewrite Z2Pos.id by lia. nia.
 Qed.
+
+Lemma round_pos_bound q : Z.pos q < comp_limit ->
+  0 <= snd (round_pos q false) /\ Z.pos (fst (round_pos q false)) * 2 ^ snd (round_pos q false) < 2 ^ 4095.
+Proof. exact (round_pos_boundT q). Qed.
 
 (* ---------- float literals ---------- *)
 Lemma ltb_false a b : b <= a -> (a <? b) = false.
@@ -407,14 +433,14 @@ Qed.
 Lemma lit_core_int neg P : Z.pos P < comp_limit ->
   lit_core neg (N.pos P) 0 = QVal (FRat (sgn neg (Z.pos P)) 1).
 Proof.
-  intros H. pose proof comp_limit_lt as CL. unfold lit_core.
-  assert (S : Z.pos (Pos.size P) <= 4095) by (apply size_le_of_lt; lia).
+  intros H. pose proof comp_limit_ltT as CL. unfold lit_core.
+  assert (S : Z.pos (Pos.size P) <= 4095) by (apply size_le_T95; lia).
   pose proof (size_pos P) as S1.
   rewrite ltb_false by (unfold MinExp; lia). rewrite gtb_false by (unfold MaxExp; lia). cbn [orb].
-  destruct (round_pos_bound P H) as [K B].
+  destruct (round_pos_boundT P H) as [K B].
   destruct (round_pos P false) as [m k]. cbn [fst snd] in K, B.
   assert (Sm : Z.pos (Pos.size m) + k <= 4095).
-  { rewrite <- size_mul_pow2 by lia. apply size_le_of_lt; [lia|].
+  { rewrite <- size_mul_pow2 by lia. apply size_le_T95.
     rewrite Z2Pos.id by (assert (0 < 2 ^ k) by (apply Z.pow_pos_nonneg; lia); nia). exact B. }
   pose proof (size_pos m) as Sm1.
   destruct (fin_float_ok neg m (k + 0)) as [F S2]; [unfold MinExp, MaxExp; lia|].
@@ -445,9 +471,9 @@ Qed.
 
 Lemma small_int_of_comp z : Z.abs z < comp_limit -> small_int z = true.
 Proof.
-  intros H. pose proof comp_limit_lt. unfold small_int, maxExp. apply Z.ltb_lt.
+  intros H. unfold small_int, maxExp. apply Z.ltb_lt.
   destruct (Z.eq_dec (Z.abs z) 0) as [E|E]; [rewrite E; simpl; lia|].
-  assert (Z.log2 (Z.abs z) < 4095) by (apply Z.log2_lt_pow2; lia). lia.
+  assert (Z.log2 (Z.abs z) < 4095) by (apply Z.log2_lt_pow2; [lia|exact (Z.lt_trans _ _ _ H comp_limit_lt)]). lia.
 Qed.
 
 Lemma make_rat_id n d : Z.gcd n (Z.pos d) = 1 -> Z.abs n < comp_limit -> Z.pos d < comp_limit ->
@@ -628,11 +654,7 @@ Definition nocolon (c : N) : Prop := c <> c_colon.
 
 Lemma comp_limit_pos : 1 < comp_limit.
 Proof.
-  unfold comp_limit.
-  assert (2 ^ 3583 <= 2 ^ 4095) by (apply Z.pow_le_mono_r; lia).
-  assert (2 ^ 3583 = 2 * 2 ^ 3582) by (rewrite <- Z.pow_succ_r by lia; reflexivity).
-  assert (2 ^ 1 <= 2 ^ 3582) by (apply Z.pow_le_mono_r; lia).
-  change (2 ^ 1) with 2 in *. lia.
+  rewrite comp_limit_T. pose proof T95_T82. pose proof T82_ge2. lia.
 Qed.
 
 (* result of unmarshalFloat on the text of a well-formed Float representation *)
